@@ -137,6 +137,10 @@ def trigger_time(ctx, op, entered):
     notif = op[2]
     if notif[0] == 'DELAY':
         return entered + notif[1]
+    if notif[0] == 'GE':
+        return max(entered, notif[1])
+    if notif[0] == 'EQ':
+        return notif[1] if notif[1] >= entered else None
     if notif[0] == 'F':
         for kind, act, pc, now, data in ctx.log:
             if kind == 'start' and data == 'SET' and now >= entered:
